@@ -5,6 +5,7 @@
    pair, the last accepted write wins. *)
 From Coq Require Import String List Bool Arith ZArith.
 From Hpotk Require Import Base.Result Base.Str Sim.Model Sim.Proofs Sim.Csv.
+From Hpotk Require Import Io.Model Sim.CsvFile Sim.Rebuild Sim.RoundTrip.
 Import ListNotations.
 
 (* after ANY sequence of set operations: for any two keys in either order, the value most recently
@@ -81,3 +82,46 @@ Proof.
   - cbn in H. destruct H as [H|[H|[]]]; inversion H; reflexivity.
   - cbn in H. destruct H as [H|[H|[]]]; inversion H; reflexivity.
 Qed.
+
+(* THE FILE: what to_csv writes ('#' description, '#' metadata, column names, one CR LF terminated row per stored
+   pair), read through the universal-newline text layer of the handle (C16), is what from_csv's reader returns: the
+   two header lines and exactly those rows in that order - for any keys and value texts without line breaks (commas,
+   quotes, hash signs - also at the start of a row -, blanks, empty strings), any number of rows *)
+Theorem C15_csv_file_roundtrip : forall (valid_float : string -> bool) (description meta_str : string) (rows : list (string * string * string)),
+  no_break description = true -> no_break meta_str = true -> forallb row_ok rows = true ->
+  forallb (fun r => valid_float (snd r)) rows = true ->
+  from_csv_text valid_float (universal (to_csv_text description meta_str rows)) =
+  Ok ([String hash (description ++ lfs); String hash (meta_str ++ lfs)],
+      map (fun r => (Some (fst (fst r)), Some (snd (fst r)), snd r)) rows).
+Proof. exact csv_file_roundtrip. Qed.
+
+Theorem C15_csv_file_metadata_line : forall (description meta_str : string), meta_str <> EmptyString ->
+  meta_line [String hash (description ++ lfs); String hash (meta_str ++ lfs)] = Some meta_str.
+Proof. exact csv_file_meta_line. Qed.
+
+(* re-inserting the listed items (what from_csv does with the rows) reproduces the container *)
+Theorem C15_rebuild : forall (V : Type) (zero : V) (neg : V -> bool) (ops : list (op V)),
+  let s := run V neg ops in
+  let s' := run V neg (items V s) in
+  (forall a b, get_similarity V zero s' a b = get_similarity V zero s a b) /\
+  clen V s' = clen V s /\ (forall x, In x (items V s') <-> In x (items V s)).
+Proof.
+  exact (fun V zero neg ops => conj (proj1 (proj2 (rebuild_same V zero neg ops)))
+                                    (conj (rebuild_same_length V zero neg ops) (proj2 (proj2 (rebuild_same V zero neg ops))))).
+Qed.
+
+(* END TO END: history -> container -> to_csv text -> handle -> from_csv records -> float() -> container', with the
+   float <-> text conversion as an oracle pair obeying float(repr(v)) = v *)
+Theorem C15_container_csv_roundtrip : forall (V : Type) (zero : V) (neg : V -> bool) (show : V -> string) (parse : string -> V)
+  (valid_float : string -> bool), (forall v, parse (show v) = v) -> (forall v, valid_float (show v) = true /\ no_break (show v) = true) ->
+  forall (ops : list (op V)) (description meta_str : string),
+  key_ok V ops -> no_break description = true -> no_break meta_str = true ->
+  let s := run V neg ops in
+  exists recs,
+    from_csv_text valid_float (universal (to_csv_text description meta_str (rows_of V show s))) =
+      Ok ([String hash (description ++ lfs); String hash (meta_str ++ lfs)], map (fun r => (Some (fst (fst r)), Some (snd (fst r)), snd r)) recs) /\
+    map (fun r => (fst (fst r), snd (fst r), parse (snd r))) recs = items V s /\
+    let s' := run V neg (items V s) in
+    (forall a b, get_similarity V zero s' a b = get_similarity V zero s a b) /\
+    clen V s' = clen V s /\ (forall x, In x (items V s') <-> In x (items V s)).
+Proof. exact container_csv_roundtrip. Qed.
